@@ -249,9 +249,16 @@ tainted<T*, T_Sbx> copy_memory_or_grant_access(rlbox_sandbox<T_Sbx>& sandbox,
                         "Granting access too large a region");
   size_t source_size = num * sizeof(T);
 
+  // The elements can be handed over as they are only if the sandbox's ABI gives
+  // them the same size as the application's (not the case for short / char16_t
+  // under an ABI whose short is not 16 bits)
+  constexpr bool same_el_size =
+    sizeof(tainted_volatile<std::remove_cv_t<T>, T_Sbx>) == sizeof(T);
+
   // sandbox can grant access if it includes the following line
   // using can_grant_deny_access = void;
-  if constexpr (detail::has_member_using_can_grant_deny_access_v<T_Sbx>) {
+  if constexpr (detail::has_member_using_can_grant_deny_access_v<T_Sbx> &&
+                same_el_size) {
     detail::check_range_doesnt_cross_app_sbx_boundary<T_Sbx>(src, source_size);
 
     // The check above only looks at the two ends of the range. Unlike memcpy,
@@ -286,7 +293,14 @@ tainted<T*, T_Sbx> copy_memory_or_grant_access(rlbox_sandbox<T_Sbx>& sandbox,
     return nullptr;
   }
 
-  rlbox::memcpy(sandbox, copy, src, source_size);
+  if constexpr (same_el_size) {
+    rlbox::memcpy(sandbox, copy, src, source_size);
+  } else {
+    detail::check_range_doesnt_cross_app_sbx_boundary<T_Sbx>(src, source_size);
+    for (size_t i = 0; i < num; i++) {
+      copy[i] = src[i];
+    }
+  }
   if (free_source_on_copy) {
     free(const_cast<void*>(reinterpret_cast<const void*>(src)));
   }
@@ -332,9 +346,14 @@ T* copy_memory_or_deny_access(rlbox_sandbox<T_Sbx>& sandbox,
                         "Denying access to too large a region");
   size_t source_size = num * sizeof(T);
 
+  // See copy_memory_or_grant_access
+  constexpr bool same_el_size =
+    sizeof(tainted_volatile<std::remove_cv_t<T>, T_Sbx>) == sizeof(T);
+
   // sandbox can grant access if it includes the following line
   // using can_grant_deny_access = void;
-  if constexpr (detail::has_member_using_can_grant_deny_access_v<T_Sbx>) {
+  if constexpr (detail::has_member_using_can_grant_deny_access_v<T_Sbx> &&
+                same_el_size) {
     detail::check_range_doesnt_cross_app_sbx_boundary<T_Sbx>(
       src.INTERNAL_unverified_safe(), source_size);
 
@@ -360,7 +379,16 @@ T* copy_memory_or_deny_access(rlbox_sandbox<T_Sbx>& sandbox,
     return nullptr;
   }
 
-  std::memcpy(copy, src_raw, source_size);
+  if constexpr (same_el_size) {
+    std::memcpy(copy, src_raw, source_size);
+  } else {
+    // The range of num elements of the sandbox's size starting at src_tainted
+    // was checked above: read them as such
+    using T_El = std::remove_cv_t<T>;
+    for (size_t i = 0; i < num; i++) {
+      const_cast<T_El*>(copy)[i] = src_tainted[i].UNSAFE_unverified();
+    }
+  }
   if (free_source_on_copy) {
     sandbox.free_in_sandbox(src);
   }
